@@ -128,6 +128,8 @@ class Statement(object):
                 original_operand = data.group("operands")
                 if data.group("comment"):
                     original_operand = "{} {}".format(data.group("operands"), data.group("comment").strip())
+                if not original_operand:
+                    raise ParseError("[{}] requires a delimited string".format(self.mnemonic), line)
                 starting_symbol = original_operand[0]
                 ending_location = original_operand.find(starting_symbol, 1)
                 self.operand = Operand.create_from_str(
